@@ -107,7 +107,8 @@ where
             index: HashMap::new(),
             blocks: VecDeque::with_capacity(size),
             tx_in_block: HashMap::new(),
-            tip: height,
+            // `update` bumps the tip once per block, so start `size` blocks below the target height
+            tip: height.saturating_sub(size as u32),
             size,
         };
 
@@ -178,17 +179,20 @@ where
             .collect();
 
         self.tx_in_block.insert(block_header.block_hash(), ks);
+        // The tip always follows the last block added, also while the index is being refilled after a reorg
+        self.tip += 1;
 
         if self.is_full() {
             // Avoid logging during bootstrap
             log::debug!("New block added to index: {}", block_header.block_hash());
-            self.tip += 1;
             self.remove_oldest_block();
         }
     }
 
     /// Fixes the index by removing disconnected data.
     pub fn remove_disconnected_block(&mut self, block_hash: &BlockHash) {
+        // The chain tip goes down one block, whether or not the index still held the block
+        self.tip = self.tip.saturating_sub(1);
         if let Some(ks) = self.tx_in_block.remove(block_hash) {
             self.index.retain(|k, _| !ks.contains(k));
 
